@@ -45,13 +45,26 @@ def parseBind (j : Json) : Except String (Option Bind) := do
     | k => throw s!"bad bind kind {k}"
   return some ⟨name, u, kind⟩
 
+/-- The driver prints one JSON document per line and the harness splits its output with
+    `str.splitlines()`, which also splits at U+0085, U+2028 and U+2029 (Lean's JSON printer leaves
+    them raw).  Output strings therefore carry these three characters (and the marker itself) as
+    U+E000 + hex code + ';'.  `markup_common.safe` does the same on the Python side. -/
+def safeChars (s : Str) : Str :=
+  s.flatMap (fun c =>
+    if c.toNat = 0x85 || c.toNat = 0x2028 || c.toNat = 0x2029 || c.toNat = 0xE000 then
+      Char.ofNat 0xE000 :: (Nat.toDigits 16 c.toNat) ++ [';']
+    else [c])
+
+/-- a model string as a JSON string, line-safe -/
+def ofStr (s : Str) : Json := Json.str (String.ofList (safeChars s))
+
 def ofCVal : CVal → Json
-  | .text s => obj [("t", Json.str "s"), ("v", ofChars s)]
-  | .markup s => obj [("t", Json.str "m"), ("v", ofChars s)]
+  | .text s => obj [("t", Json.str "s"), ("v", ofStr s)]
+  | .markup s => obj [("t", Json.str "m"), ("v", ofStr s)]
   | .bool b => obj [("t", Json.str "b"), ("v", Json.bool b)]
   | .maybe => obj [("t", Json.str "maybe")]
   | .int n => obj [("t", Json.str "i"), ("v", ofInt n)]
-  | .opaque s => obj [("t", Json.str "o"), ("v", ofChars s)]
+  | .opaque s => obj [("t", Json.str "o"), ("v", ofStr s)]
 
 def ofErr (e : Option PyErr) : Json :=
   match e with
